@@ -41,10 +41,24 @@ def pair(ny, nx, seed, lcells, rcells, dmin, dmax):
     right = table(ny, nx, 1, seed)
     lm = mask_from_cells(ny, nx, lcells)
     rm = mask_from_cells(ny, nx, rcells)
-    # nodata pixels carry the nodata value, as create_dataset_from_inputs leaves them
-    dl = D.image(left, disp=(dmin, dmax), msk=lm)
-    dr = D.image(right, msk=rm)
+    # nodata pixels carry the nodata value, as create_dataset_from_inputs leaves them.
+    # Every second pair uses another legal mask convention (attributes valid_pixels = 1, no_data_mask = 0, any
+    # other value invalid) instead of the reader's 0 / 1: the datasets say which code means what
+    alt = (seed + len(lcells or []) + len(rcells or [])) % 2 == 1
+    attrs = {"valid_pixels": 1, "no_data_mask": 0} if alt else None
+    dl = D.image(left, disp=(dmin, dmax), msk=_convention(lm, alt), attrs=attrs)
+    dr = D.image(right, msk=_convention(rm, alt), attrs=attrs)
     return dl, dr, left, right, lm, rm
+
+
+def _convention(m, alt):
+    """driver's mask codes (0 valid, 1 nodata, 2 invalid) -> the alternative convention (1 valid, 0 nodata, 2 invalid)"""
+    if m is None or not alt:
+        return m
+    out = m.copy()
+    out[m == 0] = 1
+    out[m == 1] = 0
+    return out
 
 
 def real_cost_volume(dl, dr, method, window, subpix):
